@@ -88,6 +88,8 @@ def compare_case(kind, impl, model, fields=None):
         return [] if bi == bm else ["G impl=%r model=%r" % (bi, bm)]
     if kind == "C":
         return compare_frames(bi, bm)
+    if kind == "D":
+        fields = ["key", "disp"]
     si, sm = parse_obs(bi), parse_obs(bm)
     if len(si) != len(sm):
         return ["segments impl=%d model=%d" % (len(si), len(sm))]
